@@ -6,10 +6,10 @@ V = os.path.dirname(os.path.dirname(os.path.abspath(__file__)))
 # id -> (engine, technique, level text, level note, design ref)
 CLAIMED = {
  "C01": ("W", "explicit-state DFS over the real chain (blocks as transitions, store rollback), invariant after every block",
-         "Every history of <= depth ops over a 34-op alphabet (swaps both forms/directions, multi-hop, batch, joins, exits, perpetual and leveraged-LP opens/closes/liquidations, fee conversion, gaps, donations, pool creation) from mid-life roots is executed as real signed transactions through FinalizeBlock/Commit and reserve==bank / DenomLiquidity==sum(reserves) is evaluated exactly after every block.",
+         "Every history of <= depth ops over a 37-op alphabet (swaps both forms/directions, multi-hop over distinct pools and routes naming the same pool twice, batch, joins, exits, perpetual and leveraged-LP opens/closes/liquidations, fee conversion, gaps, donations, pool creation) from mid-life roots is executed as real signed transactions through FinalizeBlock/Commit and reserve==bank / DenomLiquidity==sum(reserves) is evaluated exactly after every block.",
          "Bounded: alphabet amounts, depth 2 (quick) / 3-4 (thorough), single validator; rollback shortcut validated by linear re-execution (traces_validated_against_impl).", "3/C01"),
  "C02": ("W", "explicit-state DFS over the real chain, invariant after every block",
-         "All histories up to the depth bound over share creators/destroyers (create pool, joins, exits, leveraged-LP open/close/liquidate, claims); TotalShares == supply == sum committed == custody balance after every block.",
+         "All histories up to the depth bound over share creators/destroyers (create pool, joins, exits incl. full withdrawals of a non-last committed denom, unbond, leveraged-LP open/close/liquidate, claims) from roots R0/R1/R5/R6 (R6: accounts holding several committed denoms in different orders, locks expired); TotalShares == supply == sum committed == custody balance after every block.",
          "Bounded alphabet/depth; rollback shortcut validated by linear re-execution.", "3/C02"),
  "C06": ("W", "explicit-state DFS over the real chain, invariant after every block",
          "All histories up to the depth bound over bond/unbond/borrow/repay/liquidation/interest-gap ops; TotalValue == cash + sum(debt) exactly after every block.",
